@@ -1,10 +1,19 @@
 (* C16 line isolation: ParseCommentFragment reads every line on its own; the only coupling between lines is
-   an alias continuation line ("-| 'x' # text"), which is appended to the LAST statement read so far.
-   Hence: a block of lines whose continuation lines all follow a statement of the same block contributes the
-   same statements / lines / errors whatever precedes it (isolation_general), a malformed line contributes
-   exactly its own error (line_isolation), and the model agrees with the per-unit spec outside the class
-   cont_after_bad of Spec/AnnGrammar.v (fragment_spec_agrees).  clearEmpytAlias drops an alias without type
-   together with its line: Stats and Lines stay aligned (Proofs/AnnTotal.v), so it is `clear_aligned`. *)
+   an alias continuation line ("-| 'x' # text").
+
+   BEFORE the repair fixes/C16-cont-after-bad.diff (`frag_loop`, `parse_fragment_gen false`) a continuation line is
+   appended to the LAST statement read so far: a block of lines whose continuation lines all follow a statement of
+   the same block contributes the same statements / lines / errors whatever precedes it (isolation_general), a
+   malformed line contributes exactly its own error (line_isolation_pre), and the model agrees with the per-unit
+   spec outside the class cont_after_bad of Spec/AnnGrammar.v (fragment_spec_agrees_pre).
+
+   AFTER the repair (`frag_loop_fx`, `parse_fragment_gen true` = the code as it is) a continuation line is appended
+   to the alias of the line directly above it only: isolation holds for EVERY block (isolation_fx), a malformed
+   line shields its neighbours whatever they are (line_isolation), and ParseCommentFragment IS the per-unit spec
+   for all inputs (fragment_spec_full).
+
+   clearEmpytAlias drops an alias without type together with its line: Stats and Lines stay aligned
+   (Proofs/AnnTotal.v), so it is `clear_aligned`. *)
 From Coq Require Import String Ascii List Arith NArith Bool Lia.
 From LH Require Import Base.Bytes Base.Res Model.AnnLexer Model.AnnAst Model.AnnParser Spec.AnnGrammar
   Proofs.AnnLexFacts Proofs.AnnTotal.
@@ -142,18 +151,20 @@ Qed.
 Lemma frag_app_aligned a b : aligned a -> aligned b -> aligned (frag_app a b).
 Proof. unfold aligned, frag_app. cbn [f_stats f_lines]. rewrite !app_length. lia. Qed.
 
-Lemma parse_fragment_clear ls fr : frag_loop frag_empty ls = Ok fr -> parse_fragment ls = Ok (clear_aligned fr).
+Lemma parse_fragment_clear ls fr :
+  frag_loop frag_empty ls = Ok fr -> parse_fragment_gen false ls = Ok (clear_aligned fr).
 Proof.
-  intros H. unfold parse_fragment. change (mkFrag [] [] []) with frag_empty. rewrite H. cbn [rbind].
+  intros H. unfold parse_fragment_gen. change (mkFrag [] [] []) with frag_empty. rewrite H. cbn [rbind].
   apply clear_empty_alias_aligned. exact (frag_loop_aligned ls _ _ H eq_refl).
 Qed.
 
-(* C16_line_isolation: a malformed line (one that yields exactly an error) between two blocks of lines *)
-Theorem line_isolation : forall ls1 bad ls2 p1 p2 e,
-  parse_fragment ls1 = Ok p1 -> parse_fragment ls2 = Ok p2 ->
+(* before the repair: a malformed line (one that yields exactly an error) between two blocks of lines, the second
+   of which must be self-contained *)
+Theorem line_isolation_pre : forall ls1 bad ls2 p1 p2 e,
+  parse_fragment_gen false ls1 = Ok p1 -> parse_fragment_gen false ls2 = Ok p2 ->
   is_cont_line bad = false -> frag_step frag_empty bad = Ok (mkFrag [] [] [e]) ->
   self_contained ls2 = true ->
-  parse_fragment (ls1 ++ bad :: ls2) =
+  parse_fragment_gen false (ls1 ++ bad :: ls2) =
   Ok (mkFrag (f_stats p1 ++ f_stats p2) (f_lines p1 ++ f_lines p2) (f_errs p1 ++ e :: f_errs p2)).
 Proof.
   intros ls1 bad ls2 p1 p2 e H1 H2 Hnc Hbad Hsc.
@@ -269,9 +280,9 @@ Proof.
     split; [rewrite (clear_aligned_app a b Ha); reflexivity | apply frag_app_aligned; assumption].
 Qed.
 
-(* outside the class cont_after_bad the model of ParseCommentFragment is the per-unit spec *)
-Theorem fragment_spec_agrees : forall ls,
-  frag_cont_after_bad ls = false -> parse_fragment ls = parse_fragment_spec ls.
+(* before the repair: outside the class cont_after_bad the model of ParseCommentFragment is the per-unit spec *)
+Theorem fragment_spec_agrees_pre : forall ls,
+  frag_cont_after_bad ls = false -> parse_fragment_gen false ls = parse_fragment_spec ls.
 Proof.
   intros ls Hg. unfold parse_fragment_spec.
   pose proof (raw_whole ls Hg) as Hr.
@@ -279,12 +290,319 @@ Proof.
   rewrite (parse_fragment_clear _ _ E). symmetry. apply units_spec_raw. rewrite <- Hr. exact E.
 Qed.
 
+(* ================================================================== the repaired loop (lastAliasState) *)
+Definition last_is_alias (stats : list astat) : bool :=
+  match rev stats with s :: _ => is_alias s | [] => false end.
+
+Lemma append_alias_last_noalias stats ct : last_is_alias stats = false -> append_alias_last stats ct = stats.
+Proof.
+  unfold last_is_alias, append_alias_last. destruct (rev stats) as [|l b]; [reflexivity|]. intros ->. reflexivity.
+Qed.
+
+Lemma last_is_alias_nonempty stats : last_is_alias stats = true -> stats <> [].
+Proof. intros H E. subst. discriminate H. Qed.
+
+Lemma last_is_alias_app pre stats : stats <> [] -> last_is_alias (pre ++ stats) = last_is_alias stats.
+Proof.
+  intros Hne. unfold last_is_alias. rewrite rev_app_distr.
+  destruct (rev stats) as [|l b] eqn:Er; [|reflexivity].
+  apply (f_equal (@rev _)) in Er. rewrite rev_involutive in Er. cbn in Er. contradiction.
+Qed.
+
+(* appendAliasState keeps the statement an alias *)
+Lemma append_alias_is_alias s ct : is_alias (append_alias s ct) = is_alias s.
+Proof. destruct s as [| n [t|] c | | | | | | | | |]; try reflexivity. destruct t; reflexivity. Qed.
+
+Lemma append_alias_last_keeps stats ct : last_is_alias (append_alias_last stats ct) = last_is_alias stats.
+Proof.
+  unfold append_alias_last. destruct (rev stats) as [|l b] eqn:Er; [reflexivity|].
+  destruct (is_alias l) eqn:Ea; [|reflexivity].
+  unfold last_is_alias. rewrite rev_app_distr, rev_involutive, Er. cbn [rev app].
+  rewrite append_alias_is_alias. reflexivity.
+Qed.
+
+(* the invariant of the repaired loop: lastAliasState != nil  ->  it is the last statement of Stats *)
+Definition fx_inv (st : frag * bool) : Prop := snd st = true -> last_is_alias (f_stats (fst st)) = true.
+
+Lemma cont_check_head lno text : is_cont_line (lno, text) = true -> exists c, check_head s_alias_head text = Ok (Some c).
+Proof.
+  unfold is_cont_line. cbn [snd]. intros Hc.
+  destruct (check_head_ok s_alias_head text eq_refl) as (ah & Hah & _).
+  unfold check_head in *. rewrite Hc in Hah |- *.
+  destruct (go_next text 2); cbn [rbind] in *; try discriminate Hah. eauto.
+Qed.
+
+(* a line that is not a continuation line: lastAliasState is reset, the effect is an append, and the new
+   lastAliasState says whether an alias statement was appended *)
+Lemma fx_step_head fr b ln : is_cont_line ln = false ->
+  frag_step_fx (fr, b) ln = do fh <- frag_step frag_empty ln; Ok (frag_app fr fh, last_is_alias (f_stats fh)).
+Proof.
+  destruct ln as [lno text]. unfold is_cont_line. cbn [snd]. intros Hc.
+  unfold frag_step_fx, frag_step. rewrite (check_head_alias_none _ Hc). cbn [rbind].
+  destruct (check_head s_head text) as [[c|]| |]; cbn [rbind]; try reflexivity.
+  - destruct (ann_parse_line (fuel_of c) c) as [[s|e]| |]; cbn [rbind]; try reflexivity.
+    + destruct fr as [st li er].
+      destruct s; unfold frag_app, frag_empty, last_is_alias;
+        cbn [rbind f_stats f_lines f_errs app rev is_alias]; rewrite ?app_nil_r; reflexivity.
+    + destruct fr as [st li er]. unfold frag_app, frag_empty, last_is_alias.
+      cbn [rbind f_stats f_lines f_errs app rev]. rewrite ?app_nil_r. reflexivity.
+  - rewrite frag_app_empty_r. reflexivity.
+Qed.
+
+(* a continuation line while lastAliasState is set: the step of the old loop *)
+Lemma fx_step_cont_true fr ln : is_cont_line ln = true ->
+  frag_step_fx (fr, true) ln = do fr' <- frag_step fr ln; Ok (fr', true).
+Proof.
+  destruct ln as [lno text]. intros Hc. destruct (cont_check_head lno text Hc) as [c Hch].
+  unfold frag_step_fx, frag_step. rewrite Hch. cbn [rbind].
+  destruct (parse_extra_alias_line (mkLx c None)) as [[ct|] l'| | |]; reflexivity.
+Qed.
+
+(* a continuation line while lastAliasState is nil: nothing happens *)
+Lemma fx_step_cont_false fr ln : is_cont_line ln = true -> frag_step_fx (fr, false) ln = Ok (fr, false).
+Proof.
+  destruct ln as [lno text]. intros Hc. destruct (cont_check_head lno text Hc) as [c Hch].
+  destruct (frag_step_fx_no_fault (fr, false) (lno, text)) as [st' Hst]. revert Hst.
+  unfold frag_step_fx. rewrite Hch. cbn [rbind].
+  destruct (parse_extra_alias_line (mkLx c None)) as [[ct|] l'| | |]; intros Hst; try discriminate Hst; reflexivity.
+Qed.
+
+(* ... and in the old loop nothing happens when the last statement is not an alias *)
+Lemma step_cont_noalias fr ln : is_cont_line ln = true -> last_is_alias (f_stats fr) = false -> frag_step fr ln = Ok fr.
+Proof.
+  destruct ln as [lno text]. intros Hc Hl. destruct (cont_check_head lno text Hc) as [c Hch].
+  destruct (frag_step_no_fault fr (lno, text)) as [fr' Hst]. revert Hst.
+  unfold frag_step. rewrite Hch. cbn [rbind].
+  destruct (parse_extra_alias_line (mkLx c None)) as [[ct|] l'| | |]; intros Hst; try discriminate Hst.
+  - rewrite (append_alias_last_noalias _ _ Hl). destruct fr; reflexivity.
+  - reflexivity.
+Qed.
+
+Lemma frag_step_keeps_last fr ln fr' : is_cont_line ln = true ->
+  frag_step fr ln = Ok fr' -> last_is_alias (f_stats fr') = last_is_alias (f_stats fr).
+Proof.
+  destruct ln as [lno text]. intros Hc. destruct (cont_check_head lno text Hc) as [c Hch].
+  unfold frag_step. rewrite Hch. cbn [rbind].
+  destruct (parse_extra_alias_line (mkLx c None)) as [[ct|] l'| | |]; intros Hst; try discriminate Hst;
+    injection Hst as <-; [|reflexivity]. cbn [f_stats]. apply append_alias_last_keeps.
+Qed.
+
+Lemma frag_step_fx_inv st ln st' : frag_step_fx st ln = Ok st' -> fx_inv st -> fx_inv st'.
+Proof.
+  destruct st as [fr b]. intros Hst Hinv. destruct (is_cont_line ln) eqn:Hc.
+  - destruct b.
+    + rewrite (fx_step_cont_true fr ln Hc) in Hst.
+      destruct (frag_step fr ln) as [fr'| |] eqn:E; cbn [rbind] in Hst; try discriminate Hst. injection Hst as <-.
+      intros _. cbn [fst]. rewrite (frag_step_keeps_last _ _ _ Hc E). exact (Hinv eq_refl).
+    + rewrite (fx_step_cont_false fr ln Hc) in Hst. injection Hst as <-. exact Hinv.
+  - rewrite (fx_step_head fr b ln Hc) in Hst.
+    destruct (frag_step frag_empty ln) as [fh| |] eqn:E; cbn [rbind] in Hst; try discriminate Hst. injection Hst as <-.
+    unfold fx_inv. cbn [fst snd]. intros Hl. unfold frag_app. cbn [f_stats].
+    rewrite last_is_alias_app by (apply last_is_alias_nonempty; exact Hl). exact Hl.
+Qed.
+
+Lemma frag_loop_fx_inv ls : forall st st', frag_loop_fx st ls = Ok st' -> fx_inv st -> fx_inv st'.
+Proof.
+  induction ls as [|ln ls IH]; intros st st' H Hi; cbn [frag_loop_fx] in H.
+  - injection H as <-. exact Hi.
+  - destruct (frag_step_fx st ln) as [st1| |] eqn:E; cbn [rbind] in H; try discriminate H.
+    eapply IH; [exact H|]. eapply frag_step_fx_inv; eassumption.
+Qed.
+
+Lemma frag_loop_fx_app ls1 ls2 st :
+  frag_loop_fx st (ls1 ++ ls2) = do st1 <- frag_loop_fx st ls1; frag_loop_fx st1 ls2.
+Proof.
+  revert st. induction ls1 as [|ln ls1 IH]; intros st; cbn [app frag_loop_fx rbind]; [reflexivity|].
+  destruct (frag_step_fx st ln); cbn [rbind]; [apply IH|reflexivity|reflexivity].
+Qed.
+
+(* ------------------------------------------------------------------ isolation, for every block of lines *)
+(* what was read before does not matter: the block-local state (frx, b) must only satisfy the invariant *)
+Lemma fx_step_iso fr frx b ln : fx_inv (frx, b) ->
+  frag_step_fx (frag_app fr frx, b) ln = do r <- frag_step_fx (frx, b) ln; Ok (frag_app fr (fst r), snd r).
+Proof.
+  intros Hinv. destruct (is_cont_line ln) eqn:Hc.
+  - destruct b.
+    + rewrite !(fx_step_cont_true _ ln Hc).
+      rewrite (frag_step_cont fr frx ln (last_is_alias_nonempty _ (Hinv eq_refl))).
+      destruct (frag_step frx ln); reflexivity.
+    + rewrite !(fx_step_cont_false _ ln Hc). reflexivity.
+  - rewrite !(fx_step_head _ b ln Hc).
+    destruct (frag_step frag_empty ln); cbn [rbind fst snd]; try reflexivity.
+    rewrite frag_app_assoc. reflexivity.
+Qed.
+
+Theorem isolation_fx : forall ls fr frx b, fx_inv (frx, b) ->
+  frag_loop_fx (frag_app fr frx, b) ls = do r <- frag_loop_fx (frx, b) ls; Ok (frag_app fr (fst r), snd r).
+Proof.
+  induction ls as [|ln ls IH]; intros fr frx b Hinv; cbn [frag_loop_fx]; [reflexivity|].
+  rewrite (fx_step_iso fr frx b ln Hinv).
+  destruct (frag_step_fx (frx, b) ln) as [[frx' b']| |] eqn:E; cbn [rbind fst snd]; try reflexivity.
+  apply IH. exact (frag_step_fx_inv _ _ _ E Hinv).
+Qed.
+
+(* the form used below: any fragment read before, lastAliasState nil *)
+Corollary isolation_fx_empty : forall ls fr,
+  frag_loop_fx (fr, false) ls = do r <- frag_loop_fx (frag_empty, false) ls; Ok (frag_app fr (fst r), snd r).
+Proof.
+  intros ls fr. rewrite <- (frag_app_empty_r fr) at 1. apply isolation_fx. intros H. discriminate H.
+Qed.
+
+Lemma parse_fragment_fx_clear ls st :
+  frag_loop_fx (frag_empty, false) ls = Ok st -> parse_fragment_gen true ls = Ok (clear_aligned (fst st)).
+Proof.
+  intros H. unfold parse_fragment_gen. change (mkFrag [] [] []) with frag_empty. rewrite H. cbn [rbind].
+  apply clear_empty_alias_aligned. exact (frag_loop_fx_aligned ls _ _ H eq_refl).
+Qed.
+
+(* C16_line_isolation for the code as it is: a malformed line (one that yields exactly an error) between ANY two
+   blocks of lines *)
+Theorem line_isolation_fx : forall ls1 bad ls2 p1 p2 e,
+  parse_fragment_gen true ls1 = Ok p1 -> parse_fragment_gen true ls2 = Ok p2 ->
+  is_cont_line bad = false -> frag_step frag_empty bad = Ok (mkFrag [] [] [e]) ->
+  parse_fragment_gen true (ls1 ++ bad :: ls2) =
+  Ok (mkFrag (f_stats p1 ++ f_stats p2) (f_lines p1 ++ f_lines p2) (f_errs p1 ++ e :: f_errs p2)).
+Proof.
+  intros ls1 bad ls2 p1 p2 e H1 H2 Hnc Hbad.
+  destruct (frag_loop_fx_no_fault ls1 (frag_empty, false)) as [[fr1 b1] E1].
+  destruct (frag_loop_fx_no_fault ls2 (frag_empty, false)) as [[fr2 b2] E2].
+  rewrite (parse_fragment_fx_clear _ _ E1) in H1. rewrite (parse_fragment_fx_clear _ _ E2) in H2.
+  cbn [fst] in H1, H2. injection H1 as <-. injection H2 as <-.
+  pose proof (frag_loop_fx_aligned ls1 _ _ E1 eq_refl) as A1. cbn [fst] in A1.
+  assert (E : frag_loop_fx (frag_empty, false) (ls1 ++ bad :: ls2)
+              = Ok (frag_app (frag_app fr1 (mkFrag [] [] [e])) fr2, b2)).
+  { rewrite frag_loop_fx_app, E1. cbn [rbind frag_loop_fx].
+    rewrite (fx_step_head fr1 b1 bad Hnc), Hbad. cbn [rbind f_stats].
+    change (last_is_alias []) with false.
+    rewrite isolation_fx_empty, E2. reflexivity. }
+  rewrite (parse_fragment_fx_clear _ _ E). cbn [fst].
+  rewrite clear_aligned_app by (apply frag_app_aligned; [exact A1|reflexivity]).
+  rewrite clear_aligned_app by exact A1.
+  unfold frag_app, clear_aligned. cbn [f_stats f_lines f_errs combine filter map app].
+  rewrite !app_nil_r. rewrite <- app_assoc. reflexivity.
+Qed.
+
+(* ------------------------------------------------------------------ the repaired loop is the per-unit spec *)
+(* the shape of the units: after its first line a unit has continuation lines only *)
+Definition tail_conts (u : list (N * bytes)) : Prop := Forall (fun ln => is_cont_line ln = true) (tl u).
+
+Lemma units_tail_conts ls : Forall tail_conts (units ls).
+Proof.
+  induction ls as [|ln r IH]; [constructor|].
+  cbn [units]. destruct (units r) as [|u us] eqn:Eu.
+  - constructor; [constructor|constructor].
+  - inversion IH as [|? ? Hu Hus]; subst.
+    destruct (match u with h :: _ => is_cont_line h | [] => false end) eqn:Eh.
+    + constructor; [|exact Hus]. unfold tail_conts. cbn [tl].
+      destruct u as [|h u']; [constructor|]. constructor; [exact Eh|exact Hu].
+    + constructor; [constructor|]. constructor; assumption.
+Qed.
+
+(* continuation lines while lastAliasState is nil *)
+Lemma conts_fx_false cs : Forall (fun ln => is_cont_line ln = true) cs ->
+  forall fr, frag_loop_fx (fr, false) cs = Ok (fr, false).
+Proof.
+  induction 1 as [|ln cs Hc _ IH]; intros fr; cbn [frag_loop_fx]; [reflexivity|].
+  rewrite (fx_step_cont_false fr ln Hc). cbn [rbind]. apply IH.
+Qed.
+
+Lemma conts_old_noalias cs : Forall (fun ln => is_cont_line ln = true) cs ->
+  forall fr, last_is_alias (f_stats fr) = false -> frag_loop fr cs = Ok fr.
+Proof.
+  induction 1 as [|ln cs Hc _ IH]; intros fr Hl; cbn [frag_loop]; [reflexivity|].
+  rewrite (step_cont_noalias fr ln Hc Hl). cbn [rbind]. apply IH. exact Hl.
+Qed.
+
+(* continuation lines while lastAliasState is set: the old loop on the block-local fragment *)
+Lemma conts_fx_true cs : Forall (fun ln => is_cont_line ln = true) cs ->
+  forall fr frx, f_stats frx <> [] ->
+  frag_loop_fx (frag_app fr frx, true) cs = do a <- frag_loop frx cs; Ok (frag_app fr a, true).
+Proof.
+  induction 1 as [|ln cs Hc _ IH]; intros fr frx Hne; cbn [frag_loop_fx frag_loop rbind]; [reflexivity|].
+  rewrite (fx_step_cont_true _ ln Hc). rewrite (frag_step_cont fr frx ln Hne).
+  destruct (frag_step frx ln) as [frx'| |] eqn:E; cbn [rbind]; try reflexivity.
+  apply IH. eapply frag_step_nonempty; eassumption.
+Qed.
+
+(* one unit whose first line is not a continuation line: the unit read on its own, appended *)
+Lemma unit_fx u : head_plain u -> tail_conts u -> forall fr b,
+  exists b', frag_loop_fx (fr, b) u = do a <- frag_loop frag_empty u; Ok (frag_app fr a, b').
+Proof.
+  intros (h & cs & -> & Hh) Ht fr b. unfold tail_conts in Ht. cbn [tl] in Ht.
+  cbn [frag_loop_fx frag_loop]. rewrite (fx_step_head fr b h Hh).
+  destruct (frag_step frag_empty h) as [fh| |] eqn:Eh; cbn [rbind]; try (exists false; reflexivity).
+  destruct (last_is_alias (f_stats fh)) eqn:El.
+  - exists true. apply conts_fx_true; [exact Ht|]. apply last_is_alias_nonempty. exact El.
+  - exists false. rewrite (conts_fx_false cs Ht). rewrite (conts_old_noalias cs Ht fh El). reflexivity.
+Qed.
+
+Lemma units_fx us : Forall head_plain us -> Forall tail_conts us -> forall fr b,
+  exists b', frag_loop_fx (fr, b) (concat us) = do r <- raw_units us; Ok (frag_app fr r, b').
+Proof.
+  induction us as [|u us IH]; intros HF HT fr b; cbn [concat raw_units frag_loop_fx rbind].
+  - exists b. rewrite frag_app_empty_r. reflexivity.
+  - inversion HF as [|? ? Hu HF']; subst. inversion HT as [|? ? Tu HT']; subst.
+    rewrite frag_loop_fx_app. destruct (unit_fx u Hu Tu fr b) as [b1 ->].
+    destruct (frag_loop frag_empty u) as [a| |]; cbn [rbind]; try (exists false; reflexivity).
+    destruct (IH HF' HT' (frag_app fr a) b1) as [b2 ->].
+    destruct (raw_units us) as [r| |]; cbn [rbind]; try (exists false; reflexivity).
+    exists b2. rewrite frag_app_assoc. reflexivity.
+Qed.
+
+(* the whole fragment: the first unit may consist of continuation lines only *)
+Lemma raw_whole_fx ls : exists b', frag_loop_fx (frag_empty, false) ls = do r <- raw_units (units ls); Ok (r, b').
+Proof.
+  destruct (units_props ls) as (Hc & Ht & Hne). pose proof (units_tail_conts ls) as HT.
+  destruct (units ls) as [|u us] eqn:Eu.
+  - cbn in Hc. subst ls. exists false. reflexivity.
+  - cbn [concat] in Hc. cbn [tl] in Ht. inversion HT as [|? ? Tu HT']; subst. inversion Hne as [|? ? Hu _]; subst.
+    rewrite frag_loop_fx_app. cbn [raw_units].
+    destruct u as [|h cs]; [contradiction|].
+    assert (H1 : exists b1, frag_loop_fx (frag_empty, false) (h :: cs)
+                            = do a <- frag_loop frag_empty (h :: cs); Ok (a, b1)).
+    { destruct (is_cont_line h) eqn:Hh.
+      - exists false. assert (Hall : Forall (fun ln => is_cont_line ln = true) (h :: cs)) by (constructor; assumption).
+        rewrite (conts_fx_false _ Hall). rewrite (conts_old_noalias _ Hall frag_empty eq_refl). reflexivity.
+      - assert (Hp : head_plain (h :: cs)) by (exists h, cs; auto).
+        destruct (unit_fx _ Hp Tu frag_empty false) as [b1 Hb1]. exists b1. rewrite Hb1.
+        destruct (frag_loop frag_empty (h :: cs)); cbn [rbind]; try reflexivity. rewrite frag_app_empty_l. reflexivity. }
+    destruct H1 as [b1 ->].
+    destruct (frag_loop frag_empty (h :: cs)) as [a| |]; cbn [rbind]; try (exists false; reflexivity).
+    destruct (units_fx us Ht HT' a b1) as [b2 ->]. exists b2. destruct (raw_units us); reflexivity.
+Qed.
+
+(* C16_fragment_spec_full for the code as it is: ParseCommentFragment = every unit (a line + its continuation
+   lines) read on its own, for ALL lists of lines *)
+Theorem fragment_spec_full : forall ls, parse_fragment_gen true ls = parse_fragment_spec ls.
+Proof.
+  intros ls. unfold parse_fragment_spec.
+  destruct (raw_whole_fx ls) as [b' Hr].
+  destruct (frag_loop_fx_no_fault ls (frag_empty, false)) as [st E].
+  rewrite (parse_fragment_fx_clear _ _ E). symmetry. apply units_spec_raw.
+  rewrite E in Hr. destruct (raw_units (units ls)) as [r| |]; cbn [rbind] in Hr; try discriminate Hr.
+  injection Hr as ->. reflexivity.
+Qed.
+
+(* hence, outside the class cont_after_bad, the repair changes nothing *)
+Corollary repair_conservative : forall ls,
+  frag_cont_after_bad ls = false -> parse_fragment_gen true ls = parse_fragment_gen false ls.
+Proof. intros ls Hg. rewrite fragment_spec_full, (fragment_spec_agrees_pre ls Hg). reflexivity. Qed.
+
 (* Lines[i] is the line of Stats[i]: the result is the list of (statement, line) pairs of the lines that yield a
-   statement, minus the aliases that never got a type -- for ALL inputs *)
-Theorem fragment_pairs : forall ls, exists fr0,
+   statement, minus the aliases that never got a type -- for ALL inputs, before and after the repair *)
+Theorem fragment_pairs_pre : forall ls, exists fr0,
   frag_loop frag_empty ls = Ok fr0 /\ length (f_stats fr0) = length (f_lines fr0) /\
-  parse_fragment ls = Ok (clear_aligned fr0).
+  parse_fragment_gen false ls = Ok (clear_aligned fr0).
 Proof.
   intros ls. destruct (frag_loop_no_fault ls frag_empty) as [fr E]. exists fr.
   split; [exact E|]. split; [exact (frag_loop_aligned ls _ _ E eq_refl)|]. apply parse_fragment_clear. exact E.
+Qed.
+
+Theorem fragment_pairs_fx : forall ls, exists fr0 b,
+  frag_loop_fx (frag_empty, false) ls = Ok (fr0, b) /\ length (f_stats fr0) = length (f_lines fr0) /\
+  parse_fragment_gen true ls = Ok (clear_aligned fr0).
+Proof.
+  intros ls. destruct (frag_loop_fx_no_fault ls (frag_empty, false)) as [[fr b] E]. exists fr, b.
+  split; [exact E|]. split; [exact (frag_loop_fx_aligned ls _ _ E eq_refl)|].
+  exact (parse_fragment_fx_clear _ _ E).
 Qed.
